@@ -67,7 +67,7 @@ class dict_store(base_store):
         '''
         self.dump(object, name)
         '''
-        self.store[_resultname(name)] = pickle.dumps(object)
+        self.store[_resultname(name)] = pickle.dumps(object, protocol=pickle.HIGHEST_PROTOCOL)
         self.counts[_gen_key('dump:',name)] += 1
 
 
